@@ -69,16 +69,20 @@ def callsInherited (norm : String → String) (n : String) : IAct → Bool
   | .inh c => norm c == norm n
   | _ => false
 
+/-- the property's reading of the visits of the method (later top-level declarations excluded) -/
+def iacts (norm : String → String) (m : Method) : List IAct :=
+  m.body.map (fun e => if own m e then specIAct norm e else .other)
+
 def inheritedSpec (norm : String → String) (m : Method) : List LDiag :=
   if inheritedNames.any (fun T => norm m.head.node.ident == norm T) &&
-     !(m.body.map (specIAct norm)).any (callsInherited norm m.head.node.ident)
+     !(iacts norm m).any (callsInherited norm m.head.node.ident)
   then [⟨E8.sevInherited, m.head.node.sel, E8.inheritedMsgPre ++ m.head.node.ident ++ E8.inheritedMsgPost, 0⟩]
   else []
 
 /-- guard: on every visit of the method the checker's reading (any terminal spelled `pass`; any
     `inherited <binary operation>` whose right operand has the name) is the property's -/
 def AgreesI (norm : String → String) (m : Method) : Bool :=
-  m.body.all (fun e => ihAct Cfg.fixed norm e == specIAct norm e)
+  m.body.all (fun e => ihAct Cfg.fixed norm e == (if own m e then specIAct norm e else .other))
 
 /-! ## rule: unpurged tVarByteArray -/
 
@@ -96,7 +100,8 @@ def specPAct (norm : String → String) (e : Ev) : TAct :=
     else .other
   else .other
 
-def pacts (norm : String → String) (m : Method) : List TAct := m.body.map (specPAct norm)
+def pacts (norm : String → String) (m : Method) : List TAct :=
+  m.body.map (fun e => if own m e then specPAct norm e else .other)
 
 /-- the local `tVarByteArray`s of a method -/
 def byteArrays (norm : String → String) (m : Method) : List (String × Range) := decls (pacts norm m)
@@ -120,7 +125,8 @@ def WellDeclaredP (norm : String → String) (m : Method) : Bool := wellDeclared
     shape; first argument of `Purge` *named* like the variable whatever its shape) is the
     property's — or both readings concern no byte array of the method -/
 def AgreesP (norm : String → String) (m : Method) : Bool :=
-  m.body.all (fun e => agreeUpTo norm ((byteArrays norm m).map (fun d => norm d.1)) (upAct Cfg.fixed norm e) (specPAct norm e))
+  m.body.all (fun e => agreeUpTo norm ((byteArrays norm m).map (fun d => norm d.1)) (upAct Cfg.fixed norm e)
+    (if own m e then specPAct norm e else .other))
 
 /-! ## rule: naming conventions -/
 
